@@ -254,7 +254,7 @@ def stateless(rng, tier):
 
 
 def gen(rng, tier):
-    n = {"quick": 1500, "thorough": 15000, "search": 6000}[tier]
+    n = {"quick": 1500, "thorough": 40000, "search": 6000}[tier]
     st = stateless(rng, tier)
     for i in range(0, len(st), 2000):
         yield Case("framing", st[i:i + 2000], "stateless-%d" % (i // 2000))
